@@ -22,6 +22,7 @@ RULE = (
     "in both modes. Non-trivial = container argument, forward mode, or a non-differentiable member other than a comparison; "
     "distinct by (program kind, output kind, argument kind, operator) / (function, slot, shape)."
     " discrete_namespace: every exported function whose NumPy result on float input is boolean or integer valued returns a plain value equal to NumPy's under both modes; constant entries selected from containers with dependent neighbours; nan_to_num as a mask."
+    " aliased_containers: the same nested container, or the same ndarray, at two positions of an argument (or as two positional arguments); one position differentiable, the other read through floor / comparisons."
 )
 
 
